@@ -458,7 +458,8 @@ def run():
         ents = ["compile", "fmt"] + (["pl"] if fam.startswith("open-") or fam in ("quotes-open", "close-paren") else [])
         for e in ents:
             for k in (1, 2, 4):
-                greqs.append({"entry": e, "src": mk(base_n * k), "stack_mb": 64, **({"target": "sql.generic"} if e == "compile" else {})})
+                # log off: the time of the product, not of the debug-level log records the harness otherwise collects
+                greqs.append({"entry": e, "src": mk(base_n * k), "stack_mb": 64, "log": "off", **({"target": "sql.generic"} if e == "compile" else {})})
                 gmeta.append((fam, k, e))
     gans = probe_confirmed(ck, greqs, ck.n(20000, 60000))
     times = {}
